@@ -84,11 +84,16 @@ def Sx126xNearest (f pll : Int) : Prop := 2 * (pll * 32000000 - f * 2 ^ 25).natA
 def sx126xPll (f : Int) : Int := (f * 2 ^ 25 + 16000000) / 32000000
 
 /-- SX127x `RegFrf`: `F_rf = F_step · Frf(23:0)`, `F_step = 32 MHz / 2^19 = 61.035 Hz` (DS §4.1.4).
-The word must fit 24 bits and be the last step not above `f` (error below one step). -/
-def Sx127xBelow (f pll : Int) : Prop :=
-  0 ≤ pll ∧ pll < 2 ^ 24 ∧ 0 ≤ f * 2 ^ 19 - pll * 32000000 ∧ f * 2 ^ 19 - pll * 32000000 < 32000000
+The word must fit 24 bits; the property asks for an error below one step (`Sx127xWithinStep`); the
+reference driver (`sx127x_convert_freq_in_hz_to_pll_step`) rounds to the nearest step
+(`Sx127xNearest`, error at most 30.52 Hz), which is what the executable spec computes. -/
+def Sx127xWithinStep (f pll : Int) : Prop :=
+  0 ≤ pll ∧ pll < 2 ^ 24 ∧ (f * 2 ^ 19 - pll * 32000000).natAbs < 32000000
 
-def sx127xPll (f : Int) : Int := (f * 2 ^ 19) / 32000000
+def Sx127xNearest (f pll : Int) : Prop :=
+  0 ≤ pll ∧ pll < 2 ^ 24 ∧ 2 * (f * 2 ^ 19 - pll * 32000000).natAbs ≤ 32000000
+
+def sx127xPll (f : Int) : Int := (f * 2 ^ 19 + 16000000) / 32000000
 
 /-! ### Power amplifier -/
 
